@@ -309,6 +309,21 @@ def endIdx (f : Func) (bn : String) : Nat :=
 
 def justFuel (f : Func) : Nat := (allNames f).length + 2
 
+/-- comparison of two known integers (the body of `Spec.IR.evalCond` on integers) -/
+def condInt (c : Cond) (x y : Int) : Bool :=
+  match c with
+  | .eq => x == y | .ne => x != y | .lt => decide (x < y) | .gt => decide (x > y)
+  | .le => decide (x ≤ y) | .ge => decide (x ≥ y)
+
+/-- a conditional jump on two known integer constants becomes the jump that is taken (`CJumpPass`; the pruning
+    of phi inputs and of unreachable blocks that the pass does afterwards is NOT covered by this rule) -/
+def cjFold (f : Func) (T : DomTab) (u : Pos) (fuel : Nat) : Instr → Instr → Bool
+  | .cjump a c b yes no, .jump t =>
+    (match knownInt f T u fuel a, knownInt f T u fuel b with
+     | some va, some vb => t == (if condInt c va vb then yes else no)
+     | _, _ => false)
+  | _, _ => false
+
 /-- the callee of a call is never replaced -/
 def calleeSame : Instr → Instr → Bool
   | .fcall _ _ c _, .fcall _ _ c' _ => c = c'
@@ -317,7 +332,7 @@ def calleeSame : Instr → Instr → Bool
 
 /-- instruction `i` at point `u` of `f` may become `i'` -/
 def instrOk (f : Func) (T : DomTab) (ty : Bool) (u : Pos) (i i' : Instr) : Bool :=
-  i = i' ||
+  i = i' || cjFold f T u (justFuel f) i i' ||
   (let σ := (allOps i).zip (allOps i')
    let g : Operand → Operand := fun o => (lookupOp σ o).getD o
    i' = mapOps g i && calleeSame i i' &&
